@@ -19,6 +19,7 @@ RULE = (
     "alpha-renaming of generated DAGs in 1-3 stages compared with the original run. Non-trivial: history has >= 2 "
     "batches or a batch that permutes names; distinct = (node kind, canonical history)."
     ' Also: a MAPPED if/else graph whose items take different branches, wrapper outputs renamed by 1-3 batches, compared with the un-renamed wrapper under the forward map.'
+    ' Also: the mapped work list bound on the inner graph (caller leaves it alone) with the renames applied before and after map_over.'
 )
 ASSUMPTIONS = [
     "each parameter carries a distinct annotation and default so that a mix-up between parameters is visible",
